@@ -59,6 +59,29 @@ def judgeC01 (o : Obs) : Verdict :=
     else [])
   fail mono "clock decreased between two consecutive events" ++ waits ++ spawns
 
+/-- float-time traces (times are IEEE bit patterns of non-negative doubles: order and equality are
+meaningful, arithmetic is not): dates only -/
+def judgeC01f (o : Obs) : Verdict :=
+  let mono := (pairs (o.events.filter (·.label < 10000))).any (fun p => p.1.time > p.2.time)
+  let waits := (labels o).flatMap (fun l =>
+    (pairs (ofLabel o l)).flatMap (fun p =>
+      let (b, e) := (p.1.1, p.2.1)
+      if b.tag == "abegin" && e.tag == "awaited" then
+        let k := arg b 0
+        let x : Rat := (arg b 1 : Int)
+        if k == 1 then fail (e.time != max b.time x) s!"time >= date (bits {x}): asked at bits {b.time}, resumed at bits {e.time}"
+        else if k == 2 then fail (e.time != x) s!"time == date (bits {x}): resumed at bits {e.time}"
+        else []
+      else []))
+  let spawns := (idx o).flatMap (fun p =>
+    let e := p.1
+    if e.tag == "spawn" && arg e 3 == 2 then
+      match (ofLabel o (arg e 1)).head? with
+      | some (first, _) => fail (first.time != ((arg e 4 : Int) : Rat)) s!"task {arg e 1} spawned at date bits {arg e 4} started at bits {first.time}"
+      | none => []
+    else [])
+  fail mono "clock decreased between two consecutive events" ++ waits ++ spawns
+
 /-! ### C02 - FIFO order of activities that become runnable for the same time -/
 
 def judgeC02 (o : Obs) : Verdict :=
